@@ -66,7 +66,7 @@ Lemma apply_local_names_types : forall l m ids m',
 Proof.
   induction l as [|[fi names] r IH]; intros m ids m' E; cbn [apply_local_names] in E.
   - inversion E; reflexivity.
-  - destruct (nth_N (ii_funcs ids) fi); [|discriminate]. apply IH in E. rewrite E. wcbn. reflexivity.
+  - destruct (nth_N (ii_funcs ids) fi); [|apply IH in E; exact E]. apply IH in E. rewrite E. wcbn. reflexivity.
 Qed.
 
 Lemma mtype_eqb_refl' a : mtype_eqb a a = true.
